@@ -6,6 +6,8 @@
 2. B3: every history of depth 2 plus simulated histories of depth 10-12 are replayed with the expected return value
    and the expected complete cache content after every step on 11 cache instances (harness types, list-files,
    file-statistics, file-metadata cache; created directly, handed to CacheManager, built by CacheManager).
+4. FileCacheE2E.tla: histories of file rewrites / additions / deletions / DROP+CREATE / TTL expiry interleaved with
+   queries over a partitioned listing table (parquet, csv) with all caches enabled; replayed through SessionContext.
 3. FileCacheValidity.tla: the truth table of the validity rule (size / last_modified / schema fingerprint) is
    replayed on CachedFileMetadata::is_valid_for and CachedFileMetadataEntry::is_valid_for.
 """
@@ -20,7 +22,11 @@ BASE = dict(NKEYS=3, MAXT=4, LIMITS="{2,3,5}", TTLS="{0,1,2}")
 def run(ctx):
     build("vadt")
     if ctx.replay:
-        run_harness(ctx, "vadt", ["c40", "--replay", ctx.replay, "--out", ctx.path("res.json")])
+        rp = json.load(open(ctx.replay))
+        if str(rp.get("instance", "")).startswith("e2e/"):
+            run_harness(ctx, "vadt", ["c40e2e", "--replay", ctx.replay, "--format", rp["format"], "--out", ctx.path("res.json")])
+        else:
+            run_harness(ctx, "vadt", ["c40", "--replay", ctx.replay, "--out", ctx.path("res.json")])
         res = json.load(open(ctx.path("res.json")))
         if res["tool_errors"]:
             raise ToolError("; ".join(res["tool_errors"]))
@@ -107,12 +113,41 @@ def run(ctx):
         raise ToolError("harness machinery errors: " + "; ".join(res["tool_errors"][:3]))
     for v in res["violations"][:5]:
         report_violation(ctx, v)
+    # 4. end-to-end layer: listing table over rewritten / added / deleted files with the caches enabled
+    e2e_cases, e2e_gen = [], []
+    for i, lm in enumerate(("inf", "off", "ttl")):
+        c = dict(LISTMODE=f'"{lm}"', MAXOPS=8, NB=3)
+        cfg = ctx.path(f"e2e-{lm}.cfg")
+        open(cfg, "w").write(cfg_text(c, ["SpecOK", "Emit"], spec="SimSpec"))
+        num = 8 if ctx.quick else 60
+        r = tlc(ctx, "adt/FileCacheE2E", cfg=cfg, workers=1, deadlock=False, tag=f"e2e-{lm}", timeout=3000,
+                mode_args=["-simulate", f"num={num}", "-depth", "9", "-seed", str(ctx.seed + i)])
+        cs = tlc_cases(r.out)
+        if r.invariant_violated or not cs:
+            sys.stderr.write(r.out[-3000:])
+            raise ToolError("TLC simulation of FileCacheE2E failed")
+        uniq = list({json.dumps(x, sort_keys=True): x for x in cs}.values())
+        # prefer histories with several exact queries
+        uniq.sort(key=lambda x: -sum(1 for o in x["ops"] if o["op"] == "query" and o["b"] == 1))
+        take = uniq[: (50 if ctx.quick else 600)]
+        e2e_gen.append({"listmode": lm, "histories_generated": len(uniq), "histories_replayed": len(take)})
+        e2e_cases += take
+    write_ndjson(ctx.path("e2e.ndjson"), e2e_cases)
+    _, _ = run_harness(ctx, "vadt", ["c40e2e", "--in", ctx.path("e2e.ndjson"), "--out", ctx.path("e2e.json")], timeout=3000)
+    e2e = json.load(open(ctx.path("e2e.json")))
+    if e2e["tool_errors"]:
+        raise ToolError("e2e harness machinery errors: " + "; ".join(e2e["tool_errors"][:3]))
+    for v in e2e["violations"][:5]:
+        report_violation(ctx, v)
+    if (len(e2e["per_config"]) != 6 or e2e["queries_exact"] < 100 or e2e["rewrites_only_mtime_changed"] < 20
+            or e2e["rewrites_only_size_changed"] < 20 or e2e["prefix_scoped_queries"] < 50):
+        raise ToolError(f"vacuity (end-to-end layer): { {k: v for k, v in e2e.items() if k != 'violations'} }")
     if len(res["per_instance"]) != 11 or min(res["per_instance"].values()) < 50:
         raise ToolError(f"coverage: instances {res['per_instance']}")
     sample = [c for c in cases if len(c["ops"]) >= 8 and any(o["post"]["len"] >= 2 for o in c["ops"])][:1] or cases[:1]
     write_evidence(ctx, "model_checking", {
         "states": states, "transitions": transitions,
-        "traces_validated_against_impl": res["evaluations"],
+        "traces_validated_against_impl": res["evaluations"] + e2e["evaluations"],
         "samples": sample,
         "exhaustive": True,
         "spec_check": {"depth": depth, "distinct_states_modulo_view": rc.distinct, "invariants": ["NoDup", "Accounting", "Budget", "Shape", "GetOK", "DropOK"]},
@@ -120,12 +155,14 @@ def run(ctx):
         "history_x_instance_replays": res["evaluations"], "operations_checked_on_real_code": res["ops"],
         "per_instance": res["per_instance"], "skipped_not_expressible": res["skipped_not_expressible"],
         "validity_truth_table_cases": len(vcases),
+        "end_to_end": dict({k: v for k, v in e2e.items() if k not in ("violations", "tool_errors")}, generation=e2e_gen),
         "distinct_nontrivial": res["distinct_nontrivial"], "violations_total": res["violations_total"],
         "rule": "a case is a complete operation history of LruCache.tla replayed on one cache instance; non-trivial = at least two live entries at some step; distinct = distinct histories",
     }, assumptions=[
         "sizes are model units scaled to 4096 bytes; all keys of one instance have the same byte size and a value's byte size is fitted so that key + value = units * 4096 exactly (checked at run time, else exit 2)",
         "mock TimeProvider with 1000 s per model time unit for directly created caches and caches handed to CacheManager; caches built by CacheManager use the system clock and only replay histories without time travel (expiry compared as Some/None)",
         "the file-statistics cache has no zero-size value (histories with a zero-size put are skipped for it); Path keys carry no table reference (TABLED = FALSE histories)",
-        "the end-to-end layer (queries over rewritten files through ListingTable / parquet metadata) is not driven by this check; the validity predicate itself is (truth table)",
+        "end-to-end layer (FileCacheE2E.tla): partitioned parquet and csv listing tables; rewrites with same/different size and same/different mtime (File::set_modified), added and deleted files, DROP+CREATE, TTL expiry by sleeping; queries = full scan, count/min/max (answered from statistics), point lookups (row-group pruning), with and without a partition filter (prefix-scoped listing); an answer is only checked where the model proves that no validly cached datum can be stale, otherwise the query runs unchecked; an engine that re-lists although the cached listing is valid is accepted",
+        "negative control while building: forcing an exact expectation after a rewrite with unchanged size and mtime shows the engine serving the cached statistics (count/min/max of the old content), i.e. the caches are in use on this path",
         "binding demonstrated while building: the first calibration run compared 7738 history x instance replays with zero disagreement; a corrupted expectation (e.g. hits or expiry) is reported by the harness as a violation",
     ])
